@@ -4,6 +4,8 @@ From UsimGen Require Import Generated SourcePins.
 Import ListNotations. Open Scope string_scope.
 Definition pins : list string := ["usim/py/resources/__init__.py:<module>";
   "usim/py/resources/base.py:BaseRequest.__init__";
+  "usim/py/resources/base.py:BaseRequest.__enter__";
+  "usim/py/resources/base.py:BaseRequest.__exit__";
   "usim/py/resources/base.py:BaseRequest.cancel";
   "usim/py/resources/base.py:Put.__init__";
   "usim/py/resources/base.py:Put.cancel";
@@ -28,6 +30,7 @@ Definition pins : list string := ["usim/py/resources/__init__.py:<module>";
   "usim/py/resources/container.py:Container._do_put";
   "usim/py/resources/container.py:Container._do_get";
   "usim/py/resources/container.py:<module>";
+  "usim/py/resources/resource.py:Request.__exit__";
   "usim/py/resources/resource.py:Release.__init__";
   "usim/py/resources/resource.py:Resource.__init__";
   "usim/py/resources/resource.py:Resource.queue";
